@@ -106,13 +106,15 @@ class Scope:
 
 
 class Frame:
-    __slots__ = ("method_id", "root", "this", "cls", "trace", "name", "events")
+    __slots__ = ("method_id", "root", "this", "cls", "trace", "name", "events", "ended", "notes")
 
     def __init__(self, method_id, name):
         self.method_id, self.name = method_id, name
         self.root, self.this, self.cls = None, UNBOUND, UNBOUND
         self.trace = []
         self.events = []
+        self.ended = "normal"
+        self.notes = {}       # trace index of a transition's destination -> [tags] (see C04)
 
 
 class Unit:
@@ -155,6 +157,7 @@ def _int(v):
 BODY_COLS = ("body", "then_body", "else_body", "init_body", "condition_prebody", "update_body", "parameters",
              "fields", "methods", "nested", "static_init", "init", "catch_body", "final_body")
 
+EXC_NAMES = ("ValueError", "KeyError", "Exception", "Error", "RuntimeError", "TypeError", "RuntimeException", "Throwable")
 PY_CONSTS = {"True": True, "False": False, "None": None}
 JS_CONSTS = {"true": True, "false": False, "null": None, "undefined": None, "nil": None, "NULL": None, "TRUE": True, "FALSE": False}
 
@@ -207,6 +210,9 @@ class VM:
             self.externals[k] = Builtin(k, f)
         if self.family == "py":
             self.externals["print"] = Builtin("print", out)
+        for en in EXC_NAMES:
+            self.externals[en] = Builtin(en, (lambda *a, _n=en: {"%exc": _n, "args": list(a)}))
+        self.console = {"log": Builtin("console.log", out)}
 
     def show(self, v):
         if isinstance(v, bool) or v is None or isinstance(v, (int, str)):
@@ -360,7 +366,8 @@ class VM:
             self.steps += 1
             if self.steps > self.budget:
                 raise VMBudget("step budget exceeded")
-            frame.trace.append(row.get("stmt_id"))
+            if op not in ("for_stmt", "dowhile_stmt"):
+                frame.trace.append(row.get("stmt_id"))
         h = self.handlers.get(op)
         if h is None:
             self.opaque.append((row.get("stmt_id"), op))
@@ -419,6 +426,7 @@ class VM:
         self.activations.append(frame)
         ret = None
         try:
+          try:
             body = func.row.get("body")
             if body is not None:
                 sig = self.exec_block(unit, body, frame, frame.root, new_scope=False)
@@ -427,6 +435,9 @@ class VM:
                         ret = sig[1]
                     else:
                         raise VMError(f"{sig[0]} outside a loop")
+          except BaseException:
+            frame.ended = "abrupt"
+            raise
         finally:
             self.depth -= 1
         return ret
@@ -502,6 +513,9 @@ class VM:
         name = row.get("data_type")
         f = self.read(frame, scope, name, row)
         pos, named = self.decode_args(frame, scope, row)
+        if isinstance(f, Builtin) and name in EXC_NAMES:
+            self.write(frame, scope, row.get("target"), f.fn(*pos), row)
+            return None
         if not isinstance(f, Class):
             raise VMOpaque(f"new_object of non-class {name!r}")
         ret = self.instantiate(f, pos, named, row)
@@ -545,6 +559,12 @@ class VM:
         raise VMOpaque(f"field {field!r} of {type(recv).__name__}")
 
     def op_object_call(self, unit, row, frame, scope):
+        if row.get("receiver_object") == "console" and self.family == "js" and self.find_scope(scope, "console") is None:
+            pos, named = self.decode_args(frame, scope, row)
+            ret = self.call_value(self.console.get(row.get("field")) or self.console["log"], pos, named, row)
+            if row.get("target") is not None:
+                self.write(frame, scope, row.get("target"), ret, row)
+            return None
         recv = self.val(frame, scope, row.get("receiver_object"), row)
         field = row.get("field")
         pos, named = self.decode_args(frame, scope, row)
@@ -628,6 +648,9 @@ class VM:
         return None
 
     def op_variable_decl(self, unit, row, frame, scope):
+        # hoisting languages (Python): a declaration belongs to the function, whatever block the row sits in
+        if self.family == "py" and frame.root is not None:
+            scope = frame.root
         self.declare(scope, row.get("name"))
 
     def truthy(self, v):
@@ -969,9 +992,9 @@ class VM:
                 raise VMBudget("step budget exceeded")
             if row.get("condition_prebody") is not None:
                 self.exec_block(unit, row.get("condition_prebody"), frame, scope, new_scope=False)
+            frame.trace.append(row.get("stmt_id"))          # the test
             if not self.truthy(self.val(frame, scope, row.get("condition"), row)):
                 return None
-            frame.trace.append(row.get("stmt_id"))
 
     def op_for(self, unit, row, frame, scope):
         loop_scope = Scope(scope, frame)
@@ -982,6 +1005,10 @@ class VM:
         while True:
             if row.get("condition_prebody") is not None:
                 self.exec_block(unit, row.get("condition_prebody"), frame, loop_scope, new_scope=False)
+            self.steps += 1
+            if self.steps > self.budget:
+                raise VMBudget("step budget exceeded")
+            frame.trace.append(row.get("stmt_id"))          # the test
             cond = row.get("condition")
             if cond is not None and cond != "":
                 if not self.truthy(self.val(frame, loop_scope, cond, row)):
@@ -994,10 +1021,6 @@ class VM:
                     return sig
             if row.get("update_body") is not None:
                 self.exec_block(unit, row.get("update_body"), frame, loop_scope, new_scope=False)
-            self.steps += 1
-            if self.steps > self.budget:
-                raise VMBudget("step budget exceeded")
-            frame.trace.append(row.get("stmt_id"))
 
     def iter_values(self, recv, keys_for_records):
         if isinstance(recv, list):
@@ -1066,7 +1089,6 @@ class VM:
         for i, r in enumerate(cases):
             if r.get("operation") == "case_stmt":
                 self.steps += 1
-                frame.trace.append(r.get("stmt_id"))
                 cv = self.val(frame, inner, r.get("condition"), r)
                 if self.binop("==", v, cv, r):
                     start = i
@@ -1075,15 +1097,13 @@ class VM:
             for i, r in enumerate(cases):
                 if r.get("operation") == "default_stmt":
                     start = i
-                    frame.trace.append(r.get("stmt_id"))
                     break
         if start is None:
             return None
+        frame.trace.append(cases[start].get("stmt_id"))     # the selected case/default label
         i = start
         while i < len(cases):
             r = cases[i]
-            if i != start:
-                frame.trace.append(r.get("stmt_id"))
             if r.get("body") is not None:
                 sig = self.exec_block(unit, r.get("body"), frame, inner)
                 if sig is not None:
@@ -1091,6 +1111,7 @@ class VM:
                         return None
                     return sig
             if not fallthrough:
+                self.note(frame, "no-fallthrough-case-end")
                 return None
             i += 1
         return None
@@ -1100,37 +1121,54 @@ class VM:
         v = self.val(frame, scope, name, row) if name not in (None, "") else None
         raise GirThrow(v)
 
+    def note(self, frame, tag):
+        frame.notes.setdefault(len(frame.trace), []).append(tag)
+
     def op_try(self, unit, row, frame, scope):
         sig = None
+        pending = None
         try:
-            try:
-                if row.get("body") is not None:
-                    sig = self.exec_block(unit, row.get("body"), frame, scope)
-            except GirThrow as t:
-                handled = False
-                if row.get("catch_body") is not None:
-                    for r in unit.blocks.get(_int(row.get("catch_body")), []):
-                        if r.get("operation") in ("catch_clause", "catch_stmt"):
-                            frame.trace.append(r.get("stmt_id"))
-                            handled = True
-                            cs = Scope(scope, frame)
-                            if r.get("name"):
-                                cs.vars[r.get("name")] = t.value
-                            if r.get("exception") and self.is_var(r.get("exception")) and r.get("name") is None:
-                                pass
-                            if r.get("body") is not None:
-                                sig = self.exec_block(unit, r.get("body"), frame, cs)
-                            break
-                if not handled:
-                    raise
-            else:
-                if sig is None and row.get("else_body") is not None:
-                    sig = self.exec_block(unit, row.get("else_body"), frame, scope)
-        finally:
-            if row.get("final_body") is not None:
-                fsig = self.exec_block(unit, row.get("final_body"), frame, scope)
-                if fsig is not None:
-                    sig = fsig
+            if row.get("body") is not None:
+                sig = self.exec_block(unit, row.get("body"), frame, scope)
+            if sig is None and row.get("else_body") is not None:
+                sig = self.exec_block(unit, row.get("else_body"), frame, scope)
+        except GirThrow as t:
+            pending = t
+            if row.get("catch_body") is not None:
+                for r in unit.blocks.get(_int(row.get("catch_body")), []):
+                    if r.get("operation") not in ("catch_clause", "catch_stmt"):
+                        continue
+                    tname = r.get("expcetion") if r.get("expcetion") is not None else None
+                    if tname is None and self.family in ("py", "c"):
+                        tname = r.get("exception") if r.get("exception") in EXC_NAMES else None
+                    thrown = t.value.get("%exc") if isinstance(t.value, dict) else None
+                    if tname in EXC_NAMES and thrown in EXC_NAMES and tname != thrown and tname not in ("Exception", "Throwable", "Error"):
+                        continue
+                    self.note(frame, "throw-to-handler")
+                    frame.trace.append(r.get("stmt_id"))
+                    pending = None
+                    cs = Scope(scope, frame)
+                    for col in ("as", "name", "exception"):
+                        nm = r.get(col)
+                        if isinstance(nm, str) and self.is_var(nm) and nm not in EXC_NAMES:
+                            cs.vars[nm] = t.value
+                    if r.get("body") is not None:
+                        try:
+                            sig = self.exec_block(unit, r.get("body"), frame, cs)
+                        except GirThrow as t2:
+                            pending = t2
+                    break
+        if row.get("final_body") is not None:
+            abrupt = sig is not None or pending is not None
+            if abrupt:
+                self.note(frame, "finally-after-abrupt-completion")
+            fsig = self.exec_block(unit, row.get("final_body"), frame, scope)
+            if fsig is not None:
+                sig, pending = fsig, None
+            elif abrupt:
+                self.note(frame, "resume-after-finally")
+        if pending is not None:
+            raise pending
         return sig
 
     # ------------------------------------------------------------------ declarations
